@@ -5,7 +5,10 @@ import (
 	"context"
 	"errors"
 	"fmt"
+	"os"
+	"reflect"
 	"time"
+	"unsafe"
 
 	"github.com/hslam/rpc"
 	"github.com/hslam/socket"
@@ -64,11 +67,12 @@ type World struct {
 	streamsEx  int // stream handlers returned
 	pushN      int // messages a stream handler pushes before echoing
 	streamLog  map[byte][]string
-	keep       bool        // handlers retain their argument slices
-	streamEnd  [][3]string // per ended handler: error of the blocked read, of a later write, of a later read
-	badPush    bool        // the Push handler first writes a message the body codec refuses
-	badPushErr string      // what that write returned
-	streamHold bool        // the Push handler waits (after each received message) until this is cleared
+	keep       bool              // handlers retain their argument slices
+	streamEnd  [][3]string       // per ended handler: error of the blocked read, of a later write, of a later read
+	badPush    bool              // the Push handler first writes a message the body codec refuses
+	badPushErr string            // what that write returned
+	ran        map[byte][]string // per request tag: the methods that were invoked for it
+	streamHold bool              // the Push handler waits (after each received message) until this is cleared
 }
 
 func newWorld() *World {
@@ -80,6 +84,18 @@ type Svc struct{ w *World }
 
 // Echo has the classic (args, *reply) error shape.
 func (s *Svc) Echo(req *[]byte, res *[]byte) error {
+	s.w.ranAs(*req, "Echo")
+	return s.w.handle(*req, res)
+}
+
+// Eco1, Eco2: two more methods whose names have the same length as Echo's.
+func (s *Svc) Eco1(req *[]byte, res *[]byte) error {
+	s.w.ranAs(*req, "Eco1")
+	return s.w.handle(*req, res)
+}
+
+func (s *Svc) Eco2(req *[]byte, res *[]byte) error {
+	s.w.ranAs(*req, "Eco2")
 	return s.w.handle(*req, res)
 }
 
@@ -97,13 +113,24 @@ func (s *Svc) Plain(req *[]byte, res *[]byte) error {
 	return nil
 }
 
+// EchoWithAVeryLongMethodNameThatFillsAWholeSixtyFourByteBufferXYZ: "Svc." + this name is 64
+// bytes long, the size of the buffers most scenarios use.
+func (s *Svc) EchoWithAVeryLongMethodNameThatFillsAWholeSixtyFourByteBufferXYZ(req *[]byte, res *[]byte) error {
+	s.w.ranAs(*req, "EchoWithAVeryLongMethodNameThatFillsAWholeSixtyFourByteBufferXYZ")
+	return s.w.handle(*req, res)
+}
+
+const longMethod = "Svc.EchoWithAVeryLongMethodNameThatFillsAWholeSixtyFourByteBufferXYZ"
+
 // EchoCtx has the with-context shape.
 func (s *Svc) EchoCtx(ctx context.Context, req *[]byte, res *[]byte) error {
+	s.w.ranAs(*req, "EchoCtx")
 	return s.w.handle(*req, res)
 }
 
 // EchoOut has the return-out shape.
 func (s *Svc) EchoOut(req *[]byte) (*[]byte, error) {
+	s.w.ranAs(*req, "EchoOut")
 	var res []byte
 	err := s.w.handle(*req, &res)
 	if err != nil {
@@ -145,6 +172,16 @@ func (w *World) handle(in []byte, res *[]byte) error {
 }
 
 func (w *World) open(tag byte) { w.gates[tag] = true }
+
+// ranAs records which registered method was invoked for the request with this tag.
+func (w *World) ranAs(in []byte, method string) {
+	if len(in) > 0 {
+		if w.ran == nil {
+			w.ran = map[byte][]string{}
+		}
+		w.ran[in[0]] = append(w.ran[in[0]], method)
+	}
+}
 
 // ---- JSON service (Arith) for scenarios that want a structured codec
 
@@ -262,7 +299,36 @@ func newConn(cl socket.Messages, enc string, bufSize int, codec func() rpc.Codec
 	if bufSize > 0 {
 		c.SetBufferSize(bufSize)
 	}
+	applySeqBase(c)
 	return c
+}
+
+// seqBase, when non-zero, is where the sequence numbers of connections created by the harness
+// start: a connection that has already made that many calls (the varint encodings of the sequence
+// number grow at 128, 16384, 2097152; see the "-high-seq" scenario variants).
+var seqBase uint64
+
+// applySeqBase sets the private sequence counter of a fresh connection (no call has been made yet).
+func applySeqBase(c *rpc.Conn) bool {
+	if seqBase == 0 || c == nil {
+		return true
+	}
+	ok := false
+	func() {
+		defer func() { recover() }()
+		f := reflect.ValueOf(c).Elem().FieldByName("seq")
+		if f.IsValid() && f.Kind() == reflect.Uint64 {
+			*(*uint64)(unsafe.Pointer(f.UnsafeAddr())) = seqBase
+			ok = true
+			if os.Getenv("VERIF_DEBUG_SEQ") != "" {
+				fmt.Fprintln(os.Stderr, "seq base applied:", seqBase, f.Uint())
+			}
+		}
+	}()
+	if !ok {
+		vs.Fatal("the connection's sequence counter (field seq) was not found: high-sequence-number variants cannot run")
+	}
+	return ok
 }
 
 // recvCall receives from a Done channel under the scheduler.
